@@ -1,6 +1,7 @@
 package sim
 
 import (
+	"encoding/json"
 	"fmt"
 	"sort"
 )
@@ -55,11 +56,21 @@ type Safety struct {
 	snapFiles  []*Event
 	restores   []*Event
 
+	// lease reads (C17)
+	ld       int64 // lease duration in ns, from the header event
+	replies  map[string][]replyRec
+	confs    map[string]*ConfInfo
+
 	// config
 	Static bool // static membership: voters fixed (enables C04's voter set from the disk event itself)
 
 	viol []Violation
 	seen map[string]bool
+}
+
+type replyRec struct {
+	vt   int64
+	from string
 }
 
 type setRec struct {
@@ -110,7 +121,7 @@ func NewSafety() *Safety {
 		fsmSeq: map[int][]uint64{}, fsmRestored: map[int]bool{},
 		leaderByTerm: map[uint64]string{}, leaderSeq: map[uint64]int{}, rpcLeaderByTerm: map[uint64]string{}, ledFirst: map[string]bool{},
 		votes: map[string]map[uint64]string{}, persisted: map[string][2]any{}, maxTerm: map[string]uint64{}, termAtDel: map[int]uint64{}, lastAtDel: map[int][2]uint64{},
-		sets: map[string][]setRec{}, delSeq: map[int]int{},
+		sets: map[string][]setRec{}, delSeq: map[int]int{}, replies: map[string][]replyRec{}, confs: map[string]*ConfInfo{},
 		rvReal: map[string]int{}, rvPre: map[string]int{}, incStatus: map[string]StatusInfo{},
 		invokes: map[int]*Event{}, okWrites: map[int]ClientInfo{}, localSnaps: map[string]bool{}, seen: map[string]bool{},
 	}
@@ -194,6 +205,17 @@ func (s *Safety) On(e *Event) []Violation {
 		}
 	case "handled":
 		s.onHandled(e)
+	case "header":
+		var h Header
+		if json.Unmarshal([]byte(e.Note), &h) == nil {
+			s.ld = int64(h.LD) * 1e6
+		}
+	case "conf":
+		s.confs[e.Node] = e.Conf
+	case "reply":
+		if e.Msg.Kind == "AE" || e.Msg.Kind == "IS" {
+			s.replies[e.Node] = append(s.replies[e.Node], replyRec{e.VT, e.Msg.Dst})
+		}
 	case "invoke":
 		s.invokes[e.Client.Op] = e
 	case "return":
@@ -471,6 +493,32 @@ func (s *Safety) onHandled(e *Event) {
 
 func (s *Safety) onApply(e *Event) {
 	a := e.Apply
+	if a.Read && a.RType == 2 && s.ld > 0 {
+		// a lease-based read is being served: some voter must have answered this node within the
+		// last lease duration (necessary for any correct lease)
+		cf := s.confs[e.Node]
+		voters := 0
+		if cf != nil {
+			for _, v := range cf.Members {
+				if v {
+					voters++
+				}
+			}
+		}
+		if cf != nil && voters > 1 {
+			fresh := false
+			rs := s.replies[e.Node]
+			for k := len(rs) - 1; k >= 0 && rs[k].vt > e.VT-s.ld; k-- {
+				if cf.Members[rs[k].from] {
+					fresh = true
+					break
+				}
+			}
+			if !fresh {
+				s.v("C17", "C17/lease-read-without-fresh-voter-contact", fmt.Sprintf("%s served a lease-based read at virtual time %dus although no voting member had answered it during the preceding lease duration (%dms)", e.Node, e.VT/1000, s.ld/1e6), e.Seq)
+			}
+		}
+	}
 	if a.Read || a.Begin {
 		return
 	}
